@@ -6,10 +6,10 @@ CONSTANTS
   BasicAlpha <- BasicOne
   MaxFree = 1
   MaxBasic = 1
-  MaxUniform = 10
+  MaxUniform = 1
   Periods = {100}
   Statuses <- StatusesAll
-  MaxOps = 8
+  MaxOps = 7
   MaxFaults = 2
   MaxData = 1
   IdMod = 255
